@@ -4,6 +4,8 @@ CONSTANTS Thr = {t1,t2,t3}
  ProcScope = "thread"
  DtorLocked = FALSE
  UsesPlanner = FALSE
+ TableScope = "proc"
+ TempScope = "call"
  DtorFrees = "partial"
 INVARIANT ReleasedOnExit
 CHECK_DEADLOCK FALSE
